@@ -340,7 +340,9 @@ pub fn check_loop(case: &LoopCase, out: &LoopOutcome) -> Vec<Finding> {
                     let si = &i.sections[r];
                     let sj = &j.sections[r];
                     // j's generation / counting / tally clear precede i's start
-                    if let Some((gi, e)) = sj.pre.iter().filter(|(_, e)| matches!(e.kind, Kind::Gen | Kind::Count | Kind::TallyCleared | Kind::AllocOp)).last() {
+                    // (untimed work that j performs inside its own timed section is late all the more)
+                    let untimed_in_timed = sj.timed.iter().filter(|(_, e)| matches!(e.kind, Kind::Gen | Kind::Count | Kind::TallyCleared));
+                    if let Some((gi, e)) = sj.pre.iter().filter(|(_, e)| matches!(e.kind, Kind::Gen | Kind::Count | Kind::TallyCleared | Kind::AllocOp)).chain(untimed_in_timed).last() {
                         if *gi > si.start.0 {
                             finding(&mut f, "C08", &format!("start-before-{:?}", e.kind), format!("{}: round {r}: thread {} took its start timestamp before thread {} finished {:?}", case.describe(), i.thread, j.thread, e.kind));
                         }
